@@ -1287,7 +1287,7 @@ fn minimax_cmd(args: &[String]) -> i32 {
     let seed = seed_arg(args);
     let walks = num_arg(args, "walks", 12);
     let maxd = num_arg(args, "depth", 3) as u8;
-    let mut rep = Report::new("minimax", &format!("10 small positions (<= 10 men, small quiescence trees) + {} positions 1-5 random legal plies away (seed {}), depths 1..{}: fresh-engine score vs plain minimax with quiescence leaves; root move attains it", walks, seed, maxd));
+    let mut rep = Report::new("minimax", &format!("10 small positions (<= 10 men, small quiescence trees) + {} positions 1-5 random legal plies away (seed {}), depths 1..{}: fresh-engine score vs plain minimax with quiescence leaves; root move attains it; + 13 tactical positions with more men (incl. sacrifice-then-quiet-mate) x depth 2..3", walks, seed, maxd));
     let mg = MoveGenerator::new();
     let mut q = Searcher::new();
     // positions whose quiescence trees are small (few men, no promotion races): the reference is plain minimax, exponential
@@ -1322,6 +1322,77 @@ fn minimax_cmd(args: &[String]) -> i32 {
         }
         rep.distinct += 1;
         if rep.distinct % 10 == 1 { rep.sample(jstr(&fen)); }
+    }
+    // TACTICAL positions with more men (back-rank and smothered mates, forks, hanging pieces; one side often far behind): the
+    // places where forward pruning, reductions and margins go wrong. Depth 2..3 against plain minimax (seconds each).
+    if str_arg(args, "fen").is_none() {
+        let tactical = ["6k1/5ppp/8/8/8/8/5PPP/3R2K1 w - - 0 1", "6rk/6pp/8/6N1/8/8/8/7K w - - 0 1", "r4rk1/ppp2ppp/8/8/8/8/PPP2PPP/R3R1K1 w - - 0 1",
+            "3r2k1/5ppp/8/8/8/1Q6/5PPP/6K1 b - - 0 1", "5rk1/5ppp/8/8/8/8/1q3PPP/3RR1K1 w - - 0 1", "2kr4/ppp5/8/8/8/5n2/PPP3PP/2KR3R b - - 0 1",
+            "r3k3/8/8/8/8/8/5PPP/4R1K1 b - - 0 1", "6k1/5pp1/7p/8/8/2q5/5PPP/1R4K1 w - - 0 1", "5r1k/6pp/8/3N4/8/8/8/1Q5K w - - 0 1",
+            "4r1k1/5ppp/8/8/8/8/3q1PPP/2R2RK1 b - - 0 1",
+            // a sacrifice followed by a QUIET mating move two plies later (the mover is far behind when the mate is played)
+            "5r1k/6pp/7N/q7/2Q5/8/6PP/7K w - - 0 1", "7k/6pp/8/2q5/Q7/7n/6PP/5R1K b - - 0 1", "6rk/5Npp/8/q7/8/8/1Q4PP/7K w - - 0 1"];
+        let tn = num_arg(args, "tactical", tactical.len());
+        for f in tactical.iter().take(tn) {
+            let Some(p) = parse_fen(f) else { continue };
+            if !valid(&p) { continue; }
+            let b = eng_board(&p);
+            if mg.generate_moves(&b).is_empty() { continue; }
+            for d in 2..=maxd.min(3) {
+                let want = plain(&mg, &mut q, &b, d);
+                let mut s = Searcher::new();
+                let (score, mv) = s.find_best_move(&b, d, None);
+                rep.evals += 1;
+                let same = class(score) == class(want) && (class(want) != 0 || score == want);
+                let mv_ok = match mv { Some(m) => { let v = -plain(&mg, &mut q, &b.clone_with_move(&m), d - 1); class(v) == class(want) && (class(want) != 0 || v == want) }, None => false };
+                if !same || !mv_ok {
+                    rep.violation = Some(format!("{{\"input\": {{\"fen\": {}, \"depth\": {}}}, \"real\": {{\"score\": {}, \"move\": {}, \"move_attains_value\": {}}}, \"expected\": {{\"minimax\": {}}}}}",
+                        jstr(f), d, score, jstr(&mv.map(|m| m.to_algebraic()).unwrap_or("0000".into())), mv_ok, want));
+                    return rep.finish();
+                }
+            }
+            rep.distinct += 1;
+        }
+    }
+    // BACK-RANK structures, pseudo-randomly varied (--backrank=N of them, depth 3): castled kings behind three pawns, heavy pieces and
+    // a minor each on pseudo-random squares - where the value of a move often hangs on a quiet mating move three plies down
+    let brn = num_arg(args, "backrank", 0);
+    if brn > 0 && str_arg(args, "fen").is_none() {
+        let mut x = seed.wrapping_mul(0xD1B54A32D192ED03) | 1;
+        let mut rnd = |m: usize| -> usize { x ^= x << 13; x ^= x >> 7; x ^= x << 17; (x % m as u64) as usize };
+        let mut made = 0usize; let mut tries = 0usize;
+        while made < brn && tries < brn * 40 {
+            tries += 1;
+            let mut p = empty_pos(if rnd(2) == 0 { Col::W } else { Col::B });
+            p.sq[6] = Some((Col::W, Pc::K)); p.sq[13] = Some((Col::W, Pc::P)); p.sq[14] = Some((Col::W, Pc::P)); p.sq[15] = Some((Col::W, Pc::P));
+            p.sq[62] = Some((Col::B, Pc::K)); p.sq[53] = Some((Col::B, Pc::P)); p.sq[54] = Some((Col::B, Pc::P)); p.sq[55] = Some((Col::B, Pc::P));
+            let mut put = |p: &mut RPos, c: Col, pc: Pc, lo: usize, hi: usize, rnd: &mut dyn FnMut(usize) -> usize| { for _ in 0..20 { let s = lo + rnd(hi - lo); if p.sq[s].is_none() { p.sq[s] = Some((c, pc)); break; } } };
+            put(&mut p, Col::W, Pc::R, 0, 6, &mut rnd); if rnd(2) == 0 { put(&mut p, Col::W, Pc::R, 0, 24, &mut rnd); }
+            put(&mut p, Col::B, Pc::R, 56, 62, &mut rnd); if rnd(2) == 0 { put(&mut p, Col::B, Pc::R, 40, 62, &mut rnd); }
+            if rnd(4) != 0 { put(&mut p, Col::W, Pc::Q, 8, 48, &mut rnd); }
+            if rnd(4) != 0 { put(&mut p, Col::B, Pc::Q, 16, 56, &mut rnd); }
+            put(&mut p, Col::W, if rnd(2) == 0 { Pc::B } else { Pc::N }, 16, 48, &mut rnd);
+            put(&mut p, Col::B, if rnd(2) == 0 { Pc::B } else { Pc::N }, 16, 48, &mut rnd);
+            for _ in 0..rnd(3) { put(&mut p, Col::W, Pc::P, 8, 32, &mut rnd); put(&mut p, Col::B, Pc::P, 32, 56, &mut rnd); }
+            if !valid(&p) { continue; }
+            let b = eng_board(&p);
+            if mg.generate_moves(&b).is_empty() { continue; }
+            let f = to_fen(&p);
+            let d = 3u8;
+            let want = plain(&mg, &mut q, &b, d);
+            let mut s = Searcher::new();
+            let (score, mv) = s.find_best_move(&b, d, None);
+            rep.evals += 1;
+            let same = class(score) == class(want) && (class(want) != 0 || score == want);
+            let mv_ok = match mv { Some(m) => { let v = -plain(&mg, &mut q, &b.clone_with_move(&m), d - 1); class(v) == class(want) && (class(want) != 0 || v == want) }, None => false };
+            if !same || !mv_ok {
+                rep.violation = Some(format!("{{\"input\": {{\"fen\": {}, \"depth\": {}}}, \"real\": {{\"score\": {}, \"move\": {}, \"move_attains_value\": {}}}, \"expected\": {{\"minimax\": {}}}}}",
+                    jstr(&f), d, score, jstr(&mv.map(|m| m.to_algebraic()).unwrap_or("0000".into())), mv_ok, want));
+                return rep.finish();
+            }
+            made += 1; rep.distinct += 1;
+        }
+        rep.sample(jstr(&format!("back-rank family: {} positions", made)));
     }
     rep.finish()
 }
